@@ -3296,6 +3296,10 @@ func (e *bincEncDriverBytes) EncodeSymbol(v string) {
 			e.w.writen1(bincVdSymbol<<4 | 0x8)
 			e.w.writen2(bigen.PutUint16(ui))
 		}
+	} else if e.e.seq == math.MaxUint16 {
+
+		e.encBytesLen(cUTF8, uint64(l))
+		e.w.writestr(v)
 	} else {
 		e.e.seq++
 		ui = e.e.seq
@@ -7367,6 +7371,10 @@ func (e *bincEncDriverIO) EncodeSymbol(v string) {
 			e.w.writen1(bincVdSymbol<<4 | 0x8)
 			e.w.writen2(bigen.PutUint16(ui))
 		}
+	} else if e.e.seq == math.MaxUint16 {
+
+		e.encBytesLen(cUTF8, uint64(l))
+		e.w.writestr(v)
 	} else {
 		e.e.seq++
 		ui = e.e.seq
